@@ -2,9 +2,24 @@
 PROPERTY = "C05"
 LEVEL = "proof"
 FUNCTIONS = ['uxarray.grid.grid.Grid.face_areas',
-    'uxarray.grid.grid.Grid.compute_face_areas']
+    'uxarray.grid.grid.Grid.compute_face_areas',
+    'uxarray.grid.area.get_gauss_quadratureDG@n=1',
+    'uxarray.grid.area.get_gauss_quadratureDG@n=2',
+    'uxarray.grid.area.get_gauss_quadratureDG@n=3',
+    'uxarray.grid.area.get_gauss_quadratureDG@n=4',
+    'uxarray.grid.area.get_gauss_quadratureDG@n=5',
+    'uxarray.grid.area.get_gauss_quadratureDG@n=6',
+    'uxarray.grid.area.get_gauss_quadratureDG@n=7',
+    'uxarray.grid.area.get_gauss_quadratureDG@n=8',
+    'uxarray.grid.area.get_gauss_quadratureDG@n=9',
+    'uxarray.grid.area.get_gauss_quadratureDG@n=10',
+    'uxarray.grid.area.get_tri_quadratureDG@order=1',
+    'uxarray.grid.area.get_tri_quadratureDG@order=4',
+    'uxarray.grid.area.get_tri_quadratureDG@order=8',
+    'uxarray.grid.area.get_tri_quadratureDG@order=10',
+    'uxarray.grid.area.get_tri_quadratureDG@order=12']
 STANDINS = ["areas"]
 ASSUMPTIONS = []
 EXPLANATION = "quadrature tables / Jacobian contracts + bounded stand-in against the exact spherical excess"
-LEVEL_TEXT = 'Grid.face_areas proved to cache exactly the default-rule computation from every cache state (history contract over compute_face_areas as an uninterpreted spec function); accuracy bands, invariances, convergence and the quadrature tables are bounded (generated convex faces against the exact spherical excess)'
-LEVEL_NOTE = 'compute_face_areas / get_all_face_area_from_coords assumed (uninterpreted); accuracy bands are not decidable by contracts (approximation theory) - measured only'
+LEVEL_TEXT = 'all 15 quadrature tables proved valid in exact rational arithmetic on the literals as executed (incl. the scaling loop): positive weights summing to 1, points in the reference domain, exactness for every monomial up to the rule\'s degree (Gauss n=1..10: degree 2n-1, n=9 is a Lobatto rule of degree 15; triangular orders 1,4,8,10,12), so the degree never decreases with the order; Grid.face_areas proved to cache exactly the default-rule computation from every cache state and compute_face_areas proved (syntactically) to write no grid state; accuracy bands, invariances (start corner, numbering, rotation, input coordinates), additivity and 4 pi closure are bounded against the exact spherical excess'
+LEVEL_NOTE = 'float literals read as their decimal value (A-REAL), tolerance 1e-12 / 1e-10 on the moments; calculate_face_area / the spherical Jacobian not under contract; the accuracy bands are approximation theory and only measured'
